@@ -338,7 +338,12 @@ def fresh_like(ex, st, v, name):
         shp = tuple(ex.fresh_int(f'{name}_dim{i}') for i in range(v.ndim))
         for s_ in shp:
             st.assume(s_ >= 0)
-        return VArr(shp, None, v.tag, v.dtype)
+        if v.ndim == 1 and v.tag == 'ivec' and v.t is not None and not callable(v.t):
+            return VArr(shp, ex.fresh(name, v.t.sort()), 'ivec', v.dtype)
+        if v.ndim == 1 and v.tag == 'rvec' and v.t is not None:
+            out = type(v)(shp[0], ex.fresh(name, v.t.sort())) if hasattr(v, 'flags') else VArr(shp, ex.fresh(name, v.t.sort()), 'rvec', v.dtype)
+            return out
+        return VArr(shp, None, v.tag if v.tag not in ('ivec', 'rvec', 'bvec', 'pt') else None, v.dtype)
     raise Unsupported(f'havoc of {type(v).__name__} ({name})')
 
 
